@@ -163,6 +163,9 @@ func (p *Packet) ResetTimestamp() error {
 func (p *Packet) MakePretendPacket(seqnum uint32, nchan int) *Packet {
 	pretend := *p
 	pretend.sequenceNumber = seqnum
+	if nchan <= 0 {
+		nchan = 1 // e.g. the channel count of a packet without a shape item: avoid dividing by zero below
+	}
 	switch d := p.Data.(type) {
 	case []int16:
 		x := make([]int16, len(d))
